@@ -94,6 +94,8 @@ pub struct Hist {
     pub subj: Option<Box<dyn Subject>>,
     /// accepted and not yet yielded (collections, adapters, joins) / accepted and not ended (merges)
     pub held: Vec<u32>,
+    /// grandchildren of nested children (held by an inner join_all, not by the subject itself)
+    pub grand: Vec<u32>,
     pub order: VecDeque<u32>,
     pub yielded: HashSet<u32>,
     pub n_yielded: u64,
@@ -155,6 +157,7 @@ impl Hist {
             cap: 0,
             subj: None,
             held: Vec::new(),
+            grand: Vec::new(),
             order: VecDeque::new(),
             yielded: HashSet::new(),
             n_yielded: 0,
@@ -265,6 +268,33 @@ impl Hist {
         if self.kind.is_try() {
             k.fail = r.chance(1, 5);
         }
+        let nest = matches!(self.kind, Kind::Fub | Kind::Fu | Kind::Fob | Kind::Fo | Kind::JoinAll) && r.chance(1, 12);
+        drop(ks);
+        if nest {
+            // a nested child: join_all over 1..4 grandchildren
+            let n = self.rng.range(1, 4);
+            let mut g = Vec::new();
+            for _ in 0..n {
+                let gid = self.w.new_kid(false);
+                let mut ks = self.w.kids.borrow_mut();
+                let k = &mut ks[gid as usize];
+                match self.rng.weighted(&[30, 50, 20]) {
+                    0 => k.ready = true,
+                    1 => {}
+                    _ => k.self_wake = self.rng.range(1, 3) as u32,
+                }
+                k.hold = *self.rng.pick(&[1u8, 1, 2]);
+                k.parent = Some(id);
+                g.push(gid);
+            }
+            let mut ks = self.w.kids.borrow_mut();
+            let k = &mut ks[id as usize];
+            k.nested = g;
+            k.ready = false;
+            k.self_wake = 0;
+            k.wake_other = None;
+            k.wake_in_drop = false;
+        }
         id
     }
 
@@ -300,6 +330,18 @@ impl Hist {
 
     fn accept(&mut self, id: u32, front: bool) {
         self.w.accept(id);
+        let grand = self.w.kids.borrow()[id as usize].nested.clone();
+        for g in grand {
+            // accepted by the inner join_all; must not count against the subject's own limits
+            let lim = self.w.limit.replace(None);
+            let bl = self.w.backlog_limit.replace(None);
+            self.w.accept(g);
+            self.w.limit.set(lim);
+            self.w.backlog_limit.set(bl);
+            self.w.accepted_n.set(self.w.accepted_n.get() - 1);
+            self.grand.push(g);
+            self.n_accepted += 1;
+        }
         self.held.push(id);
         if front {
             self.order.push_front(id);
@@ -326,7 +368,8 @@ impl Hist {
         if from_iter {
             match kind {
                 Kind::Fub | Kind::Fob | Kind::MergeB | Kind::JoinAll | Kind::TryJoinAll => self.cap = n_init,
-                Kind::Fu | Kind::Fo => self.first_cap = n_init.max(32),
+                // (from_iter sizes the first group by the iterator's lower size hint, which may be 0)
+                Kind::Fu | Kind::Fo => self.first_cap = 32,
                 _ => {}
             }
         } else {
@@ -394,7 +437,21 @@ impl Hist {
         let remaining: Option<usize> = match kind {
             Kind::Fub | Kind::Fu | Kind::Fob | Kind::Fo => Some(n),
             Kind::BufU | Kind::BufO | Kind::TryBufU | Kind::TryBufO => Some(n + self.up_remaining()),
-            Kind::MergeB | Kind::MergeU => None,
+            Kind::MergeB | Kind::MergeU => {
+                // items the live sources will still produce (none of them infinite)
+                let ks = w.kids.borrow();
+                let mut r = Some(0usize);
+                for i in &self.held {
+                    let k = &ks[*i as usize];
+                    let rest = &k.script[k.pos.min(k.script.len())..];
+                    if rest.contains(&SrcStep::Infinite) {
+                        r = None;
+                        break;
+                    }
+                    r = r.map(|x| x + rest.iter().filter(|s| **s == SrcStep::Item).count());
+                }
+                r
+            }
             _ => None,
         };
         if let Some(len) = o.len {
@@ -658,6 +715,23 @@ impl Hist {
         };
         if let Some(id) = obligated {
             if !w.task_invoked_since(self.last_waker, self.last_start) {
+                if rule.starts_with("W1") && w.child_polls_in_call.get() > 0 {
+                    // the call did poll children but stopped before the obligated one, and did
+                    // not wake its task: "when it stops early it has woken its task" (C13)
+                    w.violation(
+                        "C13",
+                        "stopped_early_without_task_wake",
+                        format!("the call polled {} children, left kid {id} (pushed/woken) un-polled, returned Pending and did not wake its task", w.child_polls_in_call.get()),
+                    );
+                }
+                if rule.starts_with("W1") && self.kind.is_merge() && w.kids.borrow()[id as usize].credit_item {
+                    // a source that has just yielded is re-armed, not pending
+                    w.violation(
+                        "C11",
+                        "pending_while_source_ready",
+                        format!("merge returned Pending (task not woken) although source {id} yielded an item and was never polled again"),
+                    );
+                }
                 w.violation(
                     "C01",
                     rule,
@@ -808,6 +882,13 @@ impl Hist {
         if self.kind.is_merge() {
             // sources that ended are dropped by the merge; remove them from the model
             self.prune_ended_sources();
+        }
+        if !self.model_empty() && self.kind.is_ordered() && !self.order.is_empty() {
+            w.violation(
+                "C04",
+                "ended_before_queue_drained",
+                format!("ordered stream ended while {} queued futures/outputs were never yielded: not the behaviour of a queue ({})", self.order.len(), self.desc),
+            );
         }
         if !self.model_empty() {
             let (p, rule) = match self.kind {
@@ -1010,6 +1091,15 @@ impl Hist {
     /// complete one pending child (future: next poll is Ready; source: open its gap)
     pub fn op_complete(&mut self, id: u32, wake: bool) {
         let w = self.w.clone();
+        let grand = w.kids.borrow()[id as usize].nested.clone();
+        if !grand.is_empty() {
+            for g in grand {
+                if w.kids.borrow()[g as usize].state != KState::Done {
+                    self.op_complete(g, wake);
+                }
+            }
+            return;
+        }
         {
             let mut ks = w.kids.borrow_mut();
             let k = &mut ks[id as usize];
@@ -1087,7 +1177,7 @@ impl Hist {
 
     pub fn pick_held(&mut self, pred: impl Fn(&crate::world::Kid) -> bool) -> Option<u32> {
         let ks = self.w.kids.borrow();
-        let c: Vec<u32> = self.held.iter().copied().filter(|i| pred(&ks[*i as usize])).collect();
+        let c: Vec<u32> = self.held.iter().chain(self.grand.iter()).copied().filter(|i| pred(&ks[*i as usize])).collect();
         drop(ks);
         if c.is_empty() {
             None
@@ -1120,18 +1210,26 @@ impl Hist {
                 if k.is_src {
                     k.self_wake == 0 && k.wake_other.is_none() && k.script.get(k.pos) == Some(&SrcStep::Gap) && k.state != KState::Fresh
                 } else {
-                    !k.ready && k.self_wake == 0 && k.wake_other.is_none() && k.state != KState::Done
+                    // an output parked out of turn is not a child any more
+                    k.state == KState::Done || (!k.ready && k.self_wake == 0 && k.wake_other.is_none())
                 }
+            })
+        };
+        let passive = passive && {
+            let ks = w.kids.borrow();
+            self.grand.iter().all(|i| {
+                let k = &ks[*i as usize];
+                k.state == KState::Done || k.drops > 0 || (!k.ready && k.self_wake == 0 && k.wake_other.is_none())
             })
         };
         let up_passive = match w.up.borrow().as_ref() {
             Some(up) => up.ended || up.script.get(up.pos) == Some(&UpStep::Gap),
             None => true,
         };
-        if !passive || !up_passive || self.held.is_empty() {
+        let held = self.running();
+        if !passive || !up_passive || held == 0 {
             return;
         }
-        let held = self.held.len();
         w.event(ev::QUIET, held as u64, 0);
         bump(&w.stats.quiet_phases);
         self.flags.quiet_phases += 1;
@@ -1186,16 +1284,21 @@ impl Hist {
         }
         let w = self.w.clone();
         w.fair_enabled.set(false);
+        // futures the upstream hands out from now on are ready at once
+        if let Some(up) = w.up.borrow_mut().as_mut() {
+            up.kid_ready_pct = 100;
+        }
+        let max_rounds = 64 + 2 * self.up_remaining() as u64 + self.held.len() as u64;
         let mut rounds = 0u64;
         loop {
             rounds += 1;
             // complete everything currently held and wake it
-            let ids: Vec<u32> = self.held.clone();
+            let ids: Vec<u32> = self.held.iter().chain(self.grand.iter()).copied().collect();
             for id in ids {
                 let needs = {
                     let ks = w.kids.borrow();
                     let k = &ks[id as usize];
-                    k.state != KState::Done
+                    k.state != KState::Done && k.drops == 0 && k.nested.is_empty()
                 };
                 if needs {
                     {
@@ -1264,7 +1367,7 @@ impl Hist {
                 let ks = w.kids.borrow();
                 self.held.iter().any(|i| ks[*i as usize].state != KState::Done) && self.last != Last::Done
             } || (!self.up_ended() && self.kind.is_adapter());
-            if !more || rounds > 64 || self.last == Last::Done {
+            if !more || rounds > max_rounds || self.last == Last::Done {
                 break;
             }
             if self.kind.is_join() && self.join_ready_seen {
@@ -1281,7 +1384,13 @@ impl Hist {
                 w.violation("C01", "W3_lost_wakeup", format!("executor sleeps but kid {id} was woken and never polled again ({})", self.desc));
             }
         }
-        if self.last == Last::Pending && !self.held.is_empty() && !w.has_violation() && !self.kind.is_join() {
+        if self.last == Last::Pending && self.kind.is_ordered() && !w.has_violation() {
+            let head_done = self.order.front().map_or(false, |i| w.kids.borrow()[*i as usize].state == KState::Done);
+            if head_done {
+                w.violation("C04", "head_finished_not_yielded", format!("the future at the head of the queue has finished, the executor sleeps, and its output is not yielded ({})", self.desc));
+            }
+        }
+        if self.last == Last::Pending && !self.held.is_empty() && !w.viol.borrow().iter().any(|v| v.prop != "C04") && !self.kind.is_join() {
             w.violation("C02", "not_all_yielded", format!("everything completed and woken, executor sleeps, {} still held", self.held.len()));
         }
         if self.last == Last::Done && self.kind.is_adapter() {
@@ -1499,6 +1608,16 @@ pub fn pick_start(r: &mut Rng) -> Option<usize> {
 }
 
 fn up_script(r: &mut Rng, is_try: bool, small: bool) -> Vec<UpStep> {
+    if !small && r.chance(1, 10) {
+        // a long burst of ready items (more than the per-poll budget of the inner set)
+        let n = r.range(62, 300);
+        let mut v = vec![UpStep::Item; n];
+        if r.chance(1, 2) {
+            v.insert(r.below(n), UpStep::Gap);
+        }
+        v.push(UpStep::End);
+        return v;
+    }
     let n = if small { r.range(0, 8) } else { r.range(0, 40) };
     let mut v = Vec::new();
     for _ in 0..n {
@@ -1544,7 +1663,7 @@ pub fn run_history(p: &Params, hist_index: u64) -> HistResult {
             }
         }
         Kind::Fu | Kind::Fo | Kind::MergeU => match h.rng.below(6) {
-            0 => (Ctor::FromIter, if small { h.rng.range(0, 5) } else { *h.rng.pick(&[0usize, 1, 3, 33, 40, 70]) }),
+            0 => (Ctor::FromIter, if small { h.rng.range(0, 5) } else { *h.rng.pick(&[0usize, 1, 3, 33, 40, 70, 97, 100, 130, 226]) }),
             1 | 2 if kind != Kind::MergeU => {
                 cap = *h.rng.pick(&[0usize, 1, 1, 2, 3, 4]);
                 (Ctor::WithCap, 0)
@@ -1557,7 +1676,7 @@ pub fn run_history(p: &Params, hist_index: u64) -> HistResult {
         let script = up_script(&mut h.rng, kind.is_try(), small);
         h.flags.up_gaps = script.iter().filter(|s| **s == UpStep::Gap).count() as u32;
         let hint_mode = h.rng.below(5) as u8;
-        let ready = *h.rng.pick(&[0u8, 20, 50, 100]);
+        let ready = if script.len() > 60 { *h.rng.pick(&[100u8, 100, 50]) } else { *h.rng.pick(&[0u8, 20, 50, 100]) };
         let fail = if kind.is_try() { *h.rng.pick(&[0u8, 10, 30]) } else { 0 };
         w.install_upstream(script, hint_mode, ready, fail, 15);
     }
